@@ -97,6 +97,16 @@ pub fn replay_case(case: &Value, tally: &mut Tally) {
                 out.push(("== the core built by the library", json!(true), json!(v == d)));
                 out.push(("answers", Val::WMCore(d).answers(), Val::WMCore(v).answers()));
             },
+            "wmcore64" => {
+                let v = loaded!(WMCore);
+                let vals: Vec<u64> = c["vals"].as_array().unwrap().iter().map(crate::vec::set_to_u64).collect();
+                let d = WMCore::from(vals.clone());
+                out.push(("width", json!(d.width()), json!(v.width())));
+                out.push(("items", json!(vals.iter().map(|x| x.to_string()).collect::<Vec<String>>()), json!((0..v.len()).map(|i| v.map_down(i).unwrap().1.to_string()).collect::<Vec<String>>())));
+                out.push(("== the core built by the library", json!(true), json!(v == d)));
+                let probe = |x: &WMCore| -> Value { json!((0..x.len()).map(|i| { let (p, val) = x.map_down(i).unwrap(); json!([p, val.to_string(), x.map_up_with(p, val), x.map_down_with(i, val)]) }).collect::<Vec<Value>>()) };
+                out.push(("map_down / map_up_with / map_down_with at every index", probe(&d), probe(&v)));
+            },
             "wm" => {
                 let v = loaded!(WaveletMatrix);
                 let vals: Vec<u64> = c["vals"].as_array().unwrap().iter().map(|x| x.as_u64().unwrap()).collect();
@@ -122,7 +132,7 @@ pub fn replay_case(case: &Value, tally: &mut Tally) {
                 }
             }} }
             let got = match t { "raw" => opt!(RawVector), "int" => opt!(IntVector), "bv" => opt!(BitVector), "sparse" => opt!(SparseVector), "rl" => opt!(RLVector),
-                                "wmcore" => opt!(WMCore), "wm" => opt!(WaveletMatrix), _ => json!(null) };
+                                "wmcore" | "wmcore64" => opt!(WMCore), "wm" => opt!(WaveletMatrix), _ => json!(null) };
             if !bytes.is_empty() && !got.is_null() {
                 out.push(("as the payload of a present optional structure: Some, equal to the directly loaded value, header + payload consumed", json!([true, true, wrapped.len()]), got));
             }
@@ -229,6 +239,16 @@ pub fn record_format(seed: u64, thorough: bool, path: &str) -> Value {
         out.push(ev("wm", &(WaveletMatrix::from(vals.clone())), json!({"vals": vals})));
         out.push(ev("wmcore", &(WMCore::from(vals.clone())), json!({"vals": vals})));
         files += 6;
+    }
+    // cores with 64 levels (items with bit 63): items travel as sets of bit positions
+    for rep in 0..(2 * reps) {
+        let n = if rep == 0 { 1 } else { rng.range(2, 12) };
+        let vals: Vec<u64> = (0..n).map(|i| if i == 0 { 1u64 << 63 } else if rng.chance(1, 3) { rng.next() } else { rng.next() >> rng.range(1, 63) }).collect();
+        let core = WMCore::from(vals.clone());
+        let mut e = ev("wmcore64", &core, json!({"vals": vals.iter().map(|x| crate::vec::u64_to_set(*x)).collect::<Vec<Value>>()}));
+        e["t"] = json!("wmcore64");
+        out.push(e);
+        files += 1;
     }
     // vectors that went through shrinking histories: the unused bits of the last element must still be 0
     for rep in 0..(6 * reps) {
